@@ -35,6 +35,19 @@ var zoo = []string{
 	"NAME 60 IN TLSA 3 1 %d 0102030405060708090a0b0c0d0e0f101112131415161718191a1b1c1d1e1f20",
 	"NAME 60 IN LOC 52 22 23.000 N 4 53 32.000 E -2.00m 0.00m 10000m 10m",
 	"NAME 60 IN URI 10 %d \"https://example.org/\"",
+	// names inside RDATA that may NOT be compressed: their length estimate must be the full name
+	"NAME 60 IN RRSIG A 8 2 3600 20300101000000 20200101000000 %d example.org. AwEAAagAIKlVZrpC6Ia7gEzahOR+9W29euxhJhVVLOyQbSEW0O8gcCjF",
+	"NAME 60 IN RRSIG NS 13 3 3600 20300101000000 20200101000000 %d www.example.org. AwEAAagAIKlVZrpC6Ia7gEzahOR+9W29euxhJhVVLOyQbSEW",
+	"NAME 60 IN KX %d kx.example.org.",
+	"NAME 60 IN AFSDB %d afs.example.org.",
+	"NAME 60 IN MINFO r.example.org. e%d.example.org.",
+	"NAME 60 IN RT %d rt.example.org.",
+	"NAME 60 IN PX %d map822.example.org. mapx400.example.org.",
+	"NAME 60 IN LP %d l64.example.org.",
+	"NAME 60 IN TALINK a%d.example.org. b.example.org.",
+	"NAME 60 IN NSEC3 1 1 %d aabbccdd 2t7b4g4vsa5smi47k61mv5bv1a22bojr A RRSIG",
+	"NAME 60 IN IPSECKEY 10 3 2 gw%d.example.org. AQNRU3mG7TVTO2BkR47usntb102uFJtugbo6BSGvgqt4AQ==",
+	"NAME 60 IN HIP 2 200100107B1A74DF365639CC39F1D578 AwEAAbdxyhNuSutc5EMzxTs9LBPCIkOFH8cIvM4p9+LrV4e19WzK00+CI6zBCQTdtWsuxKbWIy87UOoJTwkUs7lBu+Upr1gsNrut79ryra+bSRGQb1slImA8YVJyuIDsj7kwzG7jnERNqnWxZ48AWkskmdHaVDP4BcelrTI3rMXdXF5D rvs%d.example.org.",
 }
 
 var owners = []string{"example.org.", "www.example.org.", "a.b.c.example.org.", "EXAMPLE.org.", "other.test.", ".",
